@@ -355,13 +355,23 @@ def int_instr(ctx, rng, a: int, b: int) -> None:
     base = _push(ea) + _push(eb)
     nt = is_nt_int(a) or is_nt_int(b)
 
-    def chk(name, prog, want, key):
+    def chk(name, prog, want, key, tight=False):
         State.cur = {'kind': 'instr', 'op': name, 'a_hex': hex(a),
                      'b_hex': hex(b), 'prog': prog if len(prog) < 300 else
-                     prog[:300]}
+                     prog[:300], 'tight': tight}
         ctx.evaluated()
-        ctx.tab('instr', name)
-        st, exc = run_prog(prog)
+        ctx.tab('instr', name + ('/tight-limit' if tight else ''))
+        if tight:
+            # the smallest item limit under which operands and result fit:
+            # "any magnitude that fits the item limit"
+            # (+1: the integer encoder may spend one sign-extension byte on
+            # values just below a power of 256 - counted, not judged)
+            need = max(len(ea), len(eb), 1 if isinstance(want, bool)
+                       else len(menc_fast(want)) + 1)
+            st, exc = run_prog(prog, need)
+            key += '-tight-limit'
+        else:
+            st, exc = run_prog(prog)
         if want is None:
             if exc is None:
                 _viol(key + '-no-error', f'{name} must raise', 'error',
@@ -389,6 +399,18 @@ def int_instr(ctx, rng, a: int, b: int) -> None:
     chk('SUBTRACT_INTS', base + bytes([o['OP_SUBTRACT_INTS'], 2]), b - a, 'sub')
     if a.bit_length() + b.bit_length() < 500_000:
         chk('MULT_INTS', base + bytes([o['OP_MULT_INTS'], 2]), a * b, 'mult')
+    if a.bit_length() + b.bit_length() < 500_000:
+        chk('ADD_INTS', base + bytes([o['OP_ADD_INTS'], 2]), a + b, 'add',
+            True)
+        chk('SUBTRACT_INTS', base + bytes([o['OP_SUBTRACT_INTS'], 2]), b - a,
+            'sub', True)
+        chk('MULT_INTS', base + bytes([o['OP_MULT_INTS'], 2]), a * b, 'mult',
+            True)
+        if a != 0 and (b % a == 0 or (a > 0) == (b >= 0)):
+            chk('DIV_INTS', base + bytes([o['OP_DIV_INTS']]), b // a, 'div',
+                True)
+            chk('MOD_INTS', base + bytes([o['OP_MOD_INTS']]), b % a, 'mod',
+                True)
     chk('LESS', base + bytes([o['OP_LESS']]), b < a, 'less')
     chk('LESS_OR_EQUAL', base + bytes([o['OP_LESS_OR_EQUAL']]), b <= a, 'leq')
     # top / second ; judged when the documents determine the result
